@@ -56,7 +56,8 @@ def main():
     r["phase"] = "original"
     sys.stdout.write(json.dumps(r) + "\n")
     sys.stdout.flush()
-    from code_data import CodeData
+    import hcommon as _H
+    CodeData = _H.lib("CodeData")
     try:
         ncode = CodeData.from_code(code).normalize().to_code()
     except Exception as e:
